@@ -895,8 +895,8 @@ def ws_corr(c, t, r):
             (t["x"], t["y"]), _ = ws_add(cv, (t["x"], t["y"]), (t["x"], t["y"]))
     elif c == "-Q":
         t["y"] = (p - t["y"] % p) % p
-    elif c == "wrong curve":
-        t["c"] = OTHER_CURVE[t["c"]]
+    elif c == "wrong curve":                       # an involution, as between the two curves of the model
+        t["c"] = OTHER_CURVE[t["c"]] if t["c"] == t["enc"] else t["enc"]
     elif c == "d negative":
         t["d"] = -t["d"]
     elif c == "d=n-1,Q":
